@@ -1076,6 +1076,10 @@ func (a *Assembler) cleanSG(half *halfconnection, ac AssemblerContext) {
 	var saved *page
 	for _, r := range a.cacheSG.all[ndx:] {
 		first, last, nb := r.convertToPages(a.pc, skip, ac)
+		if _, live := r.(*livePacket); live {
+			// the kept packet now occupies nb pages of this half connection
+			half.pages += nb
+		}
 
 		// The KeepFrom offset falls into the first kept container only: every
 		// following container is kept whole.  (A live packet does not shrink when
@@ -1134,7 +1138,7 @@ func (a *Assembler) addPending(half *halfconnection, firstSeq Sequence) int {
 		var next *page
 		for p := half.saved; p != nil; p = next {
 			next = p.next
-			p.release(a.pc)
+			half.pages -= p.release(a.pc)
 		}
 		half.saved = nil
 		ret = []byteContainer{}
